@@ -16,6 +16,7 @@ import (
 	"encoding/json"
 	"fmt"
 	"io"
+	"log"
 	"os"
 	"os/exec"
 	"path/filepath"
@@ -518,13 +519,16 @@ type c23Entry struct {
 	syntax   bool // compile ends in a tm.SyntaxError
 	unsafe   bool // a problem or identifier has non-ASCII text on its line up to its end
 	nProb    int
+	panicked string // compiler.Compile / the parser panicked in-process on this text
+	family   string
 }
 
 func c23Analyse(text string) (e c23Entry) {
 	e.text = text
 	defer func() {
 		if r := recover(); r != nil {
-			e.problems, e.ids = "panic", "_"
+			e.problems, e.ids = "_", "_"
+			e.panicked = fmt.Sprint(r)
 		}
 	}()
 	ctx := context.Background()
@@ -590,6 +594,7 @@ type c23Gen struct {
 	c           *Ctx
 	allowBefore bool // non-ASCII text in front of identifiers / problems on the same line
 	allowSyntax bool
+	corpus      []string
 }
 
 func (g *c23Gen) pick(l []string) string { return l[g.c.Rng.Intn(len(l))] }
@@ -706,6 +711,135 @@ func (g *c23Gen) grammar() string {
 		return strings.TrimRight(sb.String(), "\r\n") // no final newline
 	}
 	return sb.String()
+}
+
+// ---- richer documents: contents for which typecheck runs the deeper compiler paths (LALR conflicts with and
+// without precedence, no-eoi inputs, lalr(k), templates, lookaheads, sets) ----
+
+// randTM: the shared random context-free grammar family (gram.go) rendered as .tm text.
+func (g *c23Gen) randTM() string {
+	r := g.c.Rng
+	gr := RandGram(r, GramCfg{MaxNT: 4, MaxNN: 4, MaxRules: 3, MaxRHS: 3, MultiInput: true, Prec: true, PEmpty: 0.15})
+	if r.Intn(3) == 0 {
+		for i := range gr.Inputs { // conflicts reachable from no-eoi inputs
+			gr.Inputs[i].Eoi = false
+		}
+	}
+	o := TMOpts{Space: r.Intn(2) == 0, Recovering: r.Intn(6) == 0, Markers: r.Intn(6) == 0, ArrowPerRule: r.Intn(5) == 0}
+	if r.Intn(5) == 0 {
+		o.K = 2
+	}
+	if r.Intn(6) == 0 {
+		o.ExpectSR = 1 + r.Intn(2)
+	}
+	if r.Intn(8) == 0 {
+		o.ExpectRR = 1
+	}
+	return gr.TM("l", o)
+}
+
+// conflictTM: hand-written conflict shapes (reduce/reduce, dangling else, ambiguous expression with partial
+// precedence), each under an eoi / no-eoi / double input.
+func (g *c23Gen) conflictTM() string {
+	r := g.c.Rng
+	input := g.pick([]string{"%input S;\n", "%input S no-eoi;\n", "%input S no-eoi, S;\n", "%input S, T no-eoi;\n", ""})
+	body := g.pick([]string{
+		"S: A | B ;\nA: x ;\nB: x ;\nT: S y ;\n",
+		"S: A y | B y | A ;\nA: x ;\nB: x ;\nT: x ;\n",
+		"S: i S | i S e S | x ;\nT: S ;\n",
+		"S: S p S | S m S | x ;\nT: S y ;\n",
+		"%left p;\nS: S p S | S m S | x ;\nT: S ;\n",
+		"%left p;\n%left m;\nS: S p S | S m S | x | y %prec m ;\nT: S ;\n",
+		"%nonassoc p;\nS: S p S | x ;\nT: S S ;\n",
+		"S: A B ;\nA: x | ;\nB: x | ;\nT: A A ;\n",
+		"S: T x | T y ;\nT: | T x ;\n",
+		"S: x+ x* ;\nT: (x y)* x? ;\n",
+		"S: (x separator y)+ | x y ;\nT: S ;\n",
+	})
+	if r.Intn(4) == 0 {
+		body = "%expect " + strconv.Itoa(r.Intn(3)) + ";\n" + body
+	}
+	return "language l(go);\n:: lexer\nx: /x/\ny: /y/\ni: /i/\ne: /e/\np: /\\+/\nm: /-/\n:: parser\n" + input + body
+}
+
+// featureTM: templates, lookaheads, sets, interfaces, arrows, lexer states.
+func (g *c23Gen) featureTM() string {
+	return g.pick([]string{
+		"language l(go);\n:: lexer\nx: /x/\ny: /y/\n:: parser\n%flag F;\n%input S;\nS: T<+F> | T<~F> ;\nT<F>: [F] x | [!F] y | x y ;\n",
+		"language l(go);\n:: lexer\nx: /x/\ny: /y/\n:: parser\n%flag F = true;\n%lookahead flag G;\n%input S no-eoi;\nS: T<+G> x | T ;\nT<G>: [G] x | y ;\n",
+		"language l(go);\n:: lexer\nx: /x/\ny: /y/\n:: parser\n%input S;\nS: (?= A) x y | (?= !A) x ;\nA: x y ;\n",
+		"language l(go);\n:: lexer\nx: /x/\ny: /y/\n:: parser\n%input S;\nS: (?= A & !B) x | (?= B) x ;\nA: x x ;\nB: x y ;\n",
+		"language l(go);\n:: lexer\nx: /x/\ny: /y/\nz: /z/\n:: parser\n%input S;\n%generate afterX = set(follow x);\nS: x set(first T) | T ;\nT: y | z ;\n",
+		"language l(go);\neventBased = true\n:: lexer\nx: /x/\ny: /y/\n:: parser\n%input S;\n%interface I;\nS -> Root: T+ ;\nT -> Item/I: x -> X | y ;\n",
+		"language l(go);\n:: lexer\n%s initial, other;\nx: /x/ { l.State = StateOther }\n<other> y: /y/\n<*> z: /z/\n:: parser\n%input S;\nS: x y z ;\n",
+		"language l(go);\n:: lexer\nx: /x/\nid: /[a-z]+/ (class)\nkw: /kw/\n:: parser\n%input S no-eoi;\nS: x .mark id | kw ;\n%assert empty set(first S & kw);\n",
+		"language l(go);\n:: lexer\nx: /x/\ny: /y/\n:: parser lalr(2)\n%input S;\nS: A x y | B x x ;\nA: ;\nB: ;\n",
+		"language l(go);\n:: lexer\nx: /x/\ny: /y/\n:: parser\n%input S;\nS: A ;\nA: B ;\nB: A | x ;\n",
+		"language l(go);\n:: lexer\nx: /x/\nerror:\n:: parser\n%input S;\nS: x error | error x ;\n",
+		"language l(go);\n:: lexer\nx: /x/\n:: parser\n%input S;\ninline S: x ;\n",
+	})
+}
+
+// corpusTM: the grammars of /repo's own compiler test data (expected-output part and error markers removed),
+// optionally with their inputs turned into no-eoi inputs.
+func (g *c23Gen) corpusTM() string {
+	r := g.c.Rng
+	if g.corpus == nil {
+		repo := os.Getenv("VERIF_REPO")
+		if repo == "" {
+			repo = "/repo"
+		}
+		files, _ := filepath.Glob(filepath.Join(repo, "compiler", "testdata", "*.tm*"))
+		sort.Strings(files)
+		for _, f := range files {
+			b, err := os.ReadFile(f)
+			if err != nil || len(b) > 40000 {
+				continue
+			}
+			t := string(b)
+			if i := strings.Index(t, "\n%%"); i >= 0 {
+				t = t[:i+1]
+			}
+			t = strings.NewReplacer("«", "", "»", "").Replace(t)
+			g.corpus = append(g.corpus, t)
+		}
+		if len(g.corpus) == 0 {
+			g.corpus = []string{"language l(go);\n"}
+		}
+	}
+	t := g.corpus[r.Intn(len(g.corpus))]
+	if r.Intn(3) == 0 {
+		if i := strings.Index(t, "%input "); i >= 0 {
+			if j := strings.Index(t[i:], ";"); j >= 0 && !strings.Contains(t[i:i+j], "no-eoi") {
+				t = t[:i+j] + " no-eoi" + t[i+j:]
+			}
+		} else if i := strings.Index(t, "\ninput"); i >= 0 {
+			t = t[:i+1] + "%input input no-eoi;\n" + t[i+1:]
+		}
+	}
+	return t
+}
+
+// bigTM: a valid grammar that takes noticeably longer to compile than a small one.
+func c23BigTM(n, salt int) string {
+	var b strings.Builder
+	fmt.Fprintf(&b, "language big(go);\n# %d\n:: lexer\n", salt)
+	for i := 0; i < n; i++ {
+		fmt.Fprintf(&b, "tok%d: /kw%d[a-z]*x%d/\n", i, i, i)
+	}
+	b.WriteString(":: parser\n%input input;\ninput: item+ ;\nitem:\n")
+	for i := 0; i < n; i++ {
+		sep := "|"
+		if i == 0 {
+			sep = " "
+		}
+		fmt.Fprintf(&b, "  %s rule%d\n", sep, i)
+	}
+	b.WriteString(";\n")
+	for i := 0; i < n; i++ {
+		fmt.Fprintf(&b, "rule%d: tok%d tok%d? (tok%d | tok%d)+ ;\n", i, i, (i+1)%n, (i+2)%n, (i+3)%n)
+	}
+	return b.String()
 }
 
 func c23Utf16(s string) int { return len(utf16.Encode([]rune(s))) }
@@ -838,6 +972,7 @@ func c23Probe(c *Ctx, bin string) (m c23Mode) {
 }
 
 func c23(c *Ctx) {
+	log.SetOutput(io.Discard) // the compiler logs expansion warnings
 	bin, err := c23BuildServer(c)
 	if err != nil {
 		fmt.Fprintln(os.Stderr, err)
@@ -851,7 +986,10 @@ func c23(c *Ctx) {
 		"through ls.resolvePosition (hook) and random (line, character) pairs incl. past the end and inside surrogate pairs; decoder against unicode/utf8. " +
 		"histories: the real `textmapper ls` child process (built from VERIF_REPO) gets initialize and 3..14 didOpen/didChange/didClose/definition messages " +
 		"over 1..3 documents (two URI spellings per file, stale/negative versions, never-opened files, multi-entry change lists), pipelined or step by step; " +
-		"texts are generated grammars (valid, undefined references, redeclarations, missing %input, syntax errors, comments and quoted tokens with non-ASCII text); " +
+		"texts are generated grammars (valid, undefined references, redeclarations, missing %input, syntax errors, comments and quoted tokens with non-ASCII text), " +
+		"the shared random-CFG family rendered as .tm (conflicts, precedence, multiple and no-eoi inputs, lalr(2), markers, %expect), hand-written conflict shapes under eoi/no-eoi inputs, " +
+		"template/lookahead/set/interface/lexer-state grammars, the grammars of /repo/compiler/testdata (optionally turned no-eoi) and big grammars; every 8th history is a burst " +
+		"open small / change BIG / change small … on one document (size asymmetry); a server that dies or hangs is re-run per document and reported with the killing text; " +
 		"problems and identifiers of each text come from the real compiler/parser in-process. non-trivial = at least one publish and one definition on an open document; distinct by history."
 	var avoided []string
 	if !mode.diagUtf16 || !mode.locUtf16 {
@@ -1009,17 +1147,33 @@ func c23Histories(c *Ctx, bin string, mode c23Mode) {
 		seen := map[string]bool{}
 		for k := 1 + r.Intn(4); k > 0; k-- {
 			var text string
-			switch r.Intn(12) {
+			family := "generated"
+			switch r.Intn(16) {
 			case 0:
 				text = ""
 			case 1:
 				text = "language l(go);\n"
+			case 2, 3, 4:
+				text, family = gen.randTM(), "random CFG"
+			case 5, 6:
+				text, family = gen.conflictTM(), "conflict shapes"
+			case 7:
+				text, family = gen.featureTM(), "templates/lookaheads/sets"
+			case 8:
+				text, family = gen.corpusTM(), "compiler testdata"
+			case 9:
+				if r.Intn(3) == 0 {
+					text, family = c23BigTM(20+r.Intn(60), r.Intn(1000)), "big"
+				} else {
+					text = gen.grammar()
+				}
 			default:
 				text = gen.grammar()
 			}
 			if len(tab) > 0 && r.Intn(3) == 0 {
 				// an edit of an earlier text: typical didChange
 				base := tab[r.Intn(len(tab))].text
+				family = "generated"
 				if p := strings.Index(base, ";"); p >= 0 && r.Intn(2) == 0 {
 					text = base[:p+1] + " " + gen.comment(false) + base[p+1:]
 				} else {
@@ -1027,6 +1181,11 @@ func c23Histories(c *Ctx, bin string, mode c23Mode) {
 				}
 			}
 			e := c23Analyse(text)
+			e.family = family
+			if e.panicked != "" {
+				c23ReportKiller(c, ss, text, "compiler.Compile panics in-process ("+e.panicked+")", timeout)
+				continue
+			}
 			if (e.syntax && !mode.synFixed) || (e.unsafe && byteCols) {
 				// avoided class: make the text ASCII / drop it
 				if e.unsafe && byteCols {
@@ -1037,6 +1196,7 @@ func c23Histories(c *Ctx, bin string, mode c23Mode) {
 						return r
 					}, strings.ToValidUTF8(text, "x"))
 					e = c23Analyse(text)
+					e.family = family
 				}
 				if (e.syntax && !mode.synFixed) || (e.unsafe && byteCols) {
 					c.Count("text dropped (avoided class)")
@@ -1120,10 +1280,45 @@ func c23Histories(c *Ctx, bin string, mode c23Mode) {
 			ops = append(ops, op)
 		}
 		pipelined := r.Intn(10) < 7
+		if i%8 == 3 {
+			// size asymmetry: a big text immediately followed by a trivial edit of the same document (paste + undo),
+			// then more small edits; sent in one burst
+			big := c23Analyse(c23BigTM(60+r.Intn(80), i))
+			big.family = "big"
+			small := c23Analyse("language l(go);\n:: lexer\nx: /x/\n:: parser\n%input S;\nS: x ;\n")
+			small2 := c23Analyse("language l(go);\n:: lexer\nx: /x/\n:: parser\n%input S;\nS: x nosuch ;\n")
+			tab = []c23Entry{small, big, small2}
+			texts = []string{small.text, big.text, small2.text}
+			ops = []c23Op{
+				{kind: 'o', name: 0, version: 1, contents: []int{0}},
+				{kind: 'g', name: 0, version: 2, contents: []int{1}},
+				{kind: 'g', name: 0, version: 3, contents: []int{2}},
+				{kind: 'g', name: 0, version: 4, contents: []int{0}},
+				{kind: 'd', name: 0, line: 4, ch: 9},
+				{kind: 'g', name: 1, version: 5, contents: []int{1}},
+				{kind: 'g', name: 0, version: 6, contents: []int{2}},
+				{kind: 'd', name: 0, line: 5, ch: 3},
+			}
+			pipelined, hasPub, hasDef = true, true, true
+			c.Count("hist big-then-small burst")
+		}
 		items, direct := c23RunHistory(ss, texts, ops, pipelined, timeout)
 		line := c23Line(mode, tab, ops)
 		for _, d := range direct {
 			c.Violate(d, line)
+		}
+		if n := len(items); n > 0 && (items[n-1] == "CRASH" || items[n-1] == "HANG" || items[n-1] == "NOSTART") {
+			// which document kills the server? open each one alone on a fresh process
+			found := false
+			for _, t := range texts {
+				if c23ReportKiller(c, ss, t, "", timeout) {
+					found = true
+					break
+				}
+			}
+			if !found {
+				c.Violate("the server process died or stopped answering ("+items[n-1]+") during this history; no single document reproduces it", line)
+			}
 		}
 		key := ""
 		if hasPub && hasDef {
@@ -1135,6 +1330,13 @@ func c23Histories(c *Ctx, bin string, mode c23Mode) {
 			c.Count("hist step-by-step")
 		}
 		for _, e := range tab {
+			if e.family != "" && e.family != "generated" {
+				c.Count("text family: " + e.family)
+				if e.syntax {
+					c.Count("text family: " + e.family + " (syntax error)")
+					c.Debugf("syntax error in %s: %q", e.family, e.text)
+				}
+			}
 			switch {
 			case e.syntax:
 				c.Count("text: syntax error")
@@ -1152,6 +1354,32 @@ func c23Histories(c *Ctx, bin string, mode c23Mode) {
 		}
 		c.Case(line, strings.Join(append([]string{"wf=1"}, items...), " "), key)
 	}
+}
+
+// c23ReportKiller opens the text alone on a fresh server process; reports a violation (with the document text) when
+// the process dies or stops answering. `why` non-empty: report in any case (the in-process compiler already panicked).
+func c23ReportKiller(c *Ctx, ss *c23Session, text, why string, timeout time.Duration) bool {
+	ss.close()
+	items, _ := c23RunHistory(ss, []string{text}, []c23Op{{kind: 'o', name: 0, version: 1, contents: []int{0}}}, false, timeout)
+	got := strings.Join(items, " ")
+	died := strings.Contains(got, "CRASH") || strings.Contains(got, "HANG") || strings.Contains(got, "NOSTART")
+	if !died && why == "" {
+		return false
+	}
+	what := "the server "
+	switch {
+	case strings.Contains(got, "HANG"):
+		what += "stops answering"
+	case died:
+		what += "process dies"
+	default:
+		what += "survives (" + got + ") but " + why
+	}
+	if died && why != "" {
+		what += "; " + why
+	}
+	c.Violate(what+" when this document is opened (textDocument/didOpen): no diagnostics are published", "C23-killer-document "+strconv.Quote(text))
+	return true
 }
 
 func c23Line(mode c23Mode, tab []c23Entry, ops []c23Op) string {
